@@ -5,6 +5,7 @@
   every run by translator/rs2lean.py, so these theorems are re-checked against what the code
   says now); specification: GeoModel/RelateSpec.lean.
 -/
+import GeoProofs.Lemmas.GenKernel
 import GeoModel.Contains
 import GeoModel.Gen.Masks
 import GeoModel.Gen.Enums
@@ -401,5 +402,16 @@ theorem withinM_point_of_contains (a : Geom) (c : Pt)
 example : withinM (.point ⟨1, 1⟩) (.triangle ⟨0, 0⟩ ⟨4, 0⟩ ⟨0, 4⟩) =
     Gen.isWithin (relateSpec (.point ⟨1, 1⟩) (.triangle ⟨0, 0⟩ ⟨4, 0⟩ ⟨0, 4⟩)) :=
   withinM_point_of_contains _ _ (containsM_triangle_point _ _ _ _)
+
+/-- [T] (translator tie) the Rect kernels of the model equal the definitions regenerated from the Rust
+bodies on this run (`Rect: Intersects<Coord>`, `Rect: Intersects<Rect>`, `Rect: Contains<Coord>`,
+`Rect: Contains<Rect>`). -/
+theorem rect_kernels_eq_source :
+    (∀ mn mx p, rectCoord mn mx p = Gen.rectCoord mn mx p) ∧
+    (∀ a b c d, rectRect a b c d = Gen.rectRect a b c d) ∧
+    (∀ mn mx p, rectContainsCoord mn mx p = Gen.rectContainsCoord mn mx p) ∧
+    (∀ a b c d, rectContainsRect a b c d = Gen.rectContainsRect a b c d) :=
+  ⟨Geo.Proofs.GenKernel.rectCoord_eq, Geo.Proofs.GenKernel.rectRect_eq,
+   Geo.Proofs.GenKernel.rectContainsCoord_eq, Geo.Proofs.GenKernel.rectContainsRect_eq⟩
 
 end Geo.Proofs.C02
